@@ -76,6 +76,8 @@ func vfWrapper(t tabular.Table, f int) RenderTable {
 		return markdown.Wrap(t)
 	case 3:
 		return texttable.Wrap(t)
+	case 5:
+		return Wrap(t, "none") // boxless text: its rules are empty strings, still written
 	}
 	return Wrap(t, "html")
 }
@@ -90,6 +92,8 @@ func vfRenderTo(t tabular.Table, f int, w *vfFailWriter) error {
 		return markdown.RenderTo(t, w)
 	case 3:
 		return texttable.RenderTo(t, w)
+	case 5:
+		return RenderTo(t, w, "none")
 	}
 	return RenderTo(t, w, "html")
 }
@@ -102,7 +106,8 @@ func VerifC15_writer() {
 	t.AddRowItems(vfString("b", 1, vfTXT), "x")
 	t.AddSeparator()
 	t.AddRowItems("r")
-	nf := 5
+	t.AddSeparator() // and one after the last row
+	nf := 6
 	f := vfChoice("format", nf)
 	clean := &vfFailWriter{k: -1, mode: 1}
 	err0 := vfRenderTo(t, f, clean)
@@ -151,7 +156,8 @@ func VerifC15_recover() {
 	t.AddRowItems(vfString("b", 1, vfTXT), "x")
 	t.AddSeparator()
 	t.AddRowItems("r")
-	f := vfChoice("format", 5)
+	t.AddSeparator()
+	f := vfChoice("format", 6)
 	clean := &vfFailWriter{k: -1, mode: 1}
 	if vfRenderTo(t, f, clean) != nil {
 		vfFail("fault-free-render-ok")
